@@ -6,6 +6,16 @@ ROOT = os.path.dirname(os.path.dirname(os.path.abspath(__file__)))
 
 # property id -> (engine, level category, technique, level text, level note, design ref)
 CHECKS = {
+    "C01": ("ENUM", "exploration",
+            "bounded-exhaustive enumeration of BLTE builder programs (configuration prefix + up to 2/3 add-calls over payload classes, modes, chunk sizes, encryption specs), judged by identity, an independent decoder and a chunk-table audit",
+            "Every builder program up to depth 2 (quick) / 3 (thorough) over add_data / add_mixed_data / add_encrypted_data (honest and foreign block index) / add_chunk x 21 payload classes (empty, 1 byte, mode bytes, chunk_size-1/0/+1, compressible, incompressible, nested BLTE, 258-chunk) x modes N/Z/4 x chunk sizes {0,4,5,default,1024} x Salsa20/ARC4 specs, plus compress/single_chunk. If every call returned Ok the container must decode (real decoder and an independent decoder with its own Salsa20/RC4/LZ4/table parser) to the concatenation of the payloads, and every table entry (compressed size, decompressed size, MD5) must describe its chunk. Chunk-size-0 programs run in child processes under an address-space limit.",
+            "Trusted: the independent decoder (self-tested on published Salsa20/RC4/LZ4/MD5 vectors and a hand-assembled container) and flate2/md5. Payload bytes come from classes; chunks above 2 KiB, 8-byte IVs and the 0x10 table format are not reached.",
+            "DESIGN.md §4 C01"),
+    "C05": ("SEQ", "model_checking",
+            "explicit-state exploration of all operation histories up to a depth bound from non-initial pre-states on the real IndexManager / ResidencyDb, lock-step with a map model",
+            "Every history up to depth 3 (quick) / 4 (thorough) over 28 index mutators (add/update/status/remove on 4 colliding keys incl. a shared 9-byte prefix and an all-zero prefix, flush_bucket, flush_all, save_all, reload, clear_bucket) from 8 pre-states (empty; update section with 1259/1260 un-flushed entries in memory and saved; 1260 sorted; sorted+mixed updates), and over 16 residency operations from 11 configurations (pages at 24/25/26/50 entries, raw db and container, incl. the >10000-key batch delete). After every history all observers (lookup, has_entry, full iter_entries, counts) must agree with a map keyed by the 9-byte prefix, mutator booleans must tell the truth, reload must show a state at or after the last explicit persist point.",
+            "Trusted: the map model and the documented not-alarming decisions about implicit flushes and approximate counts. Histories longer than the bound from a pre-state, other buckets filling, and crash behaviour (C06) are not covered.",
+            "DESIGN.md §4 C05"),
     "C12": ("SEQ", "model_checking",
             "explicit-state exploration of all multi-layer operation/fault histories up to a depth bound, executed in killable worker processes, lock-step with a latest-value model",
             "Every history up to depth 3/4 (quick) and 4/5 (thorough) over put / put_with_ttl / put_to_layer / get / get_from_layer / promote / remove / clear / contains / batch ops / validated put+get / corrupt or delete the disk layer's file, on [Memory(1), Disk] and [Memory(1), Memory(2), Disk] with three promotion strategies and MD5 hooks, runs on the real MultiLayerCacheImpl inside worker processes with a progress watchdog (a call that never returns is a violation, not a stuck run). Oracle: latest-value model across layers, nothing answers after remove/clear/detected corruption, validated reads return only bytes that hash to the key, every call returns.",
